@@ -131,7 +131,7 @@ def run_case(spec):
     base_values = make_values(0)
     counters = Counter()
     log = []
-    form = str(rng.choice(["blocks", "blocks", "scalar_indices", "scalar_vectors", "scalar_single"]))
+    form = str(rng.choice(["blocks", "blocks", "scalar_indices", "scalar_vectors", "scalar_single", "scalar_implicit"]))
     state = {"phase": "define", "cone": None, "form": form}
     counters[f"form_{form}"] += 1
     Ntot = sum(sizes)
@@ -141,6 +141,12 @@ def run_case(spec):
         eye = np.eye(Ntot)
         offs = np.concatenate([[0], np.cumsum(sizes)])
         kwargs["subspace_eigenvectors"] = tuple(eye[:, offs[b]:offs[b + 1]] for b in range(nb))
+    elif form == "scalar_implicit":
+        # implicit mode: only the first block's eigenvectors are given, the rest of the space is implicit
+        eye = np.eye(Ntot)
+        kwargs["subspace_eigenvectors"] = (eye[:, : sizes[0]],)
+        kwargs.pop("fully_diagonalize", None)
+        sel = "implicit"
     elif form == "scalar_single":
         # no subspace argument: one block, fully diagonalised by default; the block structure is only in the values
         kwargs.pop("fully_diagonalize", None)
@@ -156,7 +162,7 @@ def run_case(spec):
         raise Violation(f"defining the block diagonalisation evaluated H at order {bad[0][2]}")
     counters["define_time_evals"] += len(log)
     # random schedule of requests
-    nb_out = 1 if form == "scalar_single" else nb
+    nb_out = 1 if form == "scalar_single" else 2 if form == "scalar_implicit" else nb
     universe = [(s, i, j, n) for s in range(3) for i in range(nb_out) for j in range(nb_out) for n in itertools.product(*[range(b + 1) for b in box])]
     schedule = [universe[int(x)] for x in rng.choice(len(universe), size=int(rng.integers(2, 7)), replace=False)]
     nontrivial_out = nontrivial_in = False
@@ -220,6 +226,12 @@ def run_case(spec):
         o2 = block_diagonalize(H2, **kwargs)
         vals.append(o2[s][(i, j) + n])
     a, b = vals
+    from scipy.sparse.linalg import LinearOperator as _LO
+
+    if isinstance(a, _LO):
+        a = a @ np.eye(a.shape[1])
+    if isinstance(b, _LO):
+        b = b @ np.eye(b.shape[1])
     same = (a is b) if (a is zero or a is one or b is zero or b is one) else np.array_equal(np.asarray(a), np.asarray(b))
     if not same:
         raise Violation(f"value of {('H_tilde', 'U', 'U_inv')[s]}[{i},{j},{n}] changed when only out-of-cone Hamiltonian terms were altered")
@@ -236,7 +248,7 @@ def run_case(spec):
 
 def finalize(c, tier, evaluations, distinct):
     reasons = []
-    need = dict(form_scalar_indices=50, form_scalar_vectors=50, form_scalar_single=50, form_blocks=100, multi_element_requests=200, requests=1000, hamiltonian_evals=1000, metamorphic_pairs=300, causal_nested_requests=10000, define_time_evals=500)
+    need = dict(form_scalar_implicit=40, form_scalar_indices=50, form_scalar_vectors=50, form_scalar_single=50, form_blocks=100, multi_element_requests=200, requests=1000, hamiltonian_evals=1000, metamorphic_pairs=300, causal_nested_requests=10000, define_time_evals=500)
     for k, v in need.items():
         if c.get(k, 0) < v:
             reasons.append(f"{k} observed only {c.get(k, 0)} times (< {v})")
